@@ -21,8 +21,8 @@ RULE = ('cases = generated programs over Blob objects on FileStorage+blob_dir an
         'the blob store, undo, pack removing a blob revision}; distinct by program hash')
 ASSUMPTIONS = ['the storage iterator is trusted as the listing of blob records still present (after undo and pack)',
                'extra files after an undo of a blob creation are not forbidden by the statement']
-BUDGET = {'quick': {'examples': 6000, 'workers': 8},
-          'thorough': {'examples': 60000, 'workers': 16}}
+BUDGET = {'quick': {'examples': 12000, 'workers': 8},
+          'thorough': {'examples': 100000, 'workers': 16}}
 
 DATA = [b'', b'A', b'BB', b'CCC', b'DDDD' * 10, b'E' * 5000]
 
